@@ -166,6 +166,25 @@ def rule_handout(ctx):
     ctx.ob(R, fg, fg.node, len(rets) == 1 and len(apps) == 1 and dotted(apps[0].ast.func.value) == rets[0].ast.value.id, "getall does not return exactly the records it took", text="getall-returns-taken")
 
 
+def rule_api_handout(ctx):
+    R = "handout"
+    for m, src in (("getone", "next_record"), ("getmany", "fetched_records")):
+        fi = ctx.fn(f"aiokafka.consumer.consumer.AIOKafkaConsumer.{m}")
+        c = ctx.cfg(fi)
+        aw = [n for n in c.nodes if n.kind == "await" and isinstance(n.ast, ast.Await) and isinstance(n.ast.value, ast.Call) and call_attr(n.ast.value) == src]
+        ctx.anchor(len(aw) == 1, f"await self._fetcher.{src}(...) in {m}")
+        after = c.reachable([aw[0]], exc=False)
+        # the records are out of the buffer and the position has moved: anything that can raise now loses them
+        risky = [n for n in after if (n.kind == "call" and (ctx.resolve_call(fi, n.ast) or unparse(n.ast.func).startswith("self."))) or n.kind == "raise"
+                 or (n.kind == "await" and n is not aw[0])]
+        ctx.ob(R, fi, aw[0], not risky, f"{m}(): after the records were taken from the fetcher (position already advanced) the call still runs "
+                                        f"{[unparse(x.ast)[:50] for x in risky[:3]]}, which can raise: the records are dropped with the exception and never delivered",
+               text=f"{m}:nothing-raises-after-handout")
+        rets = [n for n in after if n.kind == "return"]
+        tgt = unparse(aw[0].stmt.targets[0]) if isinstance(aw[0].stmt, ast.Assign) else None
+        ctx.ob(R, fi, aw[0], bool(rets) and all(r.ast.value is not None and unparse(r.ast.value) == tgt for r in rets), f"{m}() does not return exactly what the fetcher handed out", text=f"{m}:returns-handout")
+
+
 def rule_position_writers(ctx):
     R = "position-writers"
     ctx.rep.rule(R, "TopicPartitionState._position is written only by await_reset / consumed_to / reset_to / seek; consumed_to is called "
@@ -465,6 +484,7 @@ def run(ctx):
                        "seek drops buffered data; paused and filtered partitions; reply shape of all 11 fetch versions by symbolic evaluation.")
     rule_accept(ctx)
     rule_handout(ctx)
+    rule_api_handout(ctx)
     rule_position_writers(ctx)
     rule_unpack(ctx)
     rule_seek_drop(ctx)
